@@ -403,7 +403,7 @@ def key_cache(line, impl, model):
     return "cache-url"
 
 
-LIB_OPS = ("clean", "join", "pesc", "punesc", "h34r", "b32", "utf8", "jhp")
+LIB_OPS = ("clean", "join", "pesc", "punesc", "h34r", "b32", "utf8", "jhp", "resolve")
 
 
 def gen_libmodels(ctx):
@@ -448,12 +448,27 @@ def gen_libmodels(ctx):
     for h in (b"a.b", b"::1", b"a.::1", b"", b"a:b"):
         for p_ in (b"443", b"", b"8080"):
             add("jhp %s %s" % (hx(h), hx(p_)), "lib-joinhostport")
+    # url.ResolveReference as the rendezvous code uses it: every base path over {a . /} up to length 6 (7), the two
+    # references of the client and references with dot segments of their own
+    refs = [b"client", b"amp/client/0AAAAAAAAAAAA/QUJD", b"amp/client/0AAAAAAAAAAAA/", b"x", b".", b"..", b"./x", b"../x", b"a/../b", b"a/./b/", b"/abs/x", b"/", b"x/..", b"x/."]
+    for n in range(0, 8 if thorough else 7):
+        for t in itertools.product(b"a./", repeat=n):
+            base = bytes(t)
+            if base and base[:1] != b"/":
+                continue
+            for ref in (refs if n <= 4 else refs[:2]):
+                add("resolve %s %s" % (hx(base), hx(ref)), "lib-resolve-exhaustive")
+    for base in [b"/a%2Fb/", b"/%2e%2e/x/", b"/a/%2E/", b"/a;b/c", b"/a:b@c/", b"/~a/$&+=/", b"//", b"///", b"/a//", b"//a/b", b"/a/b/c/d/e/f/../../g/"]:
+        for ref in refs:
+            add("resolve %s %s" % (hx(base), hx(ref)), "lib-resolve-named")
     return lines, kinds
 
 
 def prop_lib(line, impl, model):
     if impl.startswith("!panic") or impl == "!died":
         return "implementation panicked/died: " + impl[:200]
+    if impl == "!parse":
+        return None
     return None
 
 
@@ -516,7 +531,9 @@ def rand_broker(rng):
                        ("a" * 20 + ".") * 4 + "example", "localhost"])
     port = rng.choice(["", "", "", ":443", ":80", ":8080"])
     user = rng.choice([""] * 9 + ["u@"])
-    path = rng.choice(["", "/", "/", "/", "/x", "/x/", "/x/y/", "/a.b/c/", "/amp/client/", "/client", "/snowflake-broker.torproject.net/"])
+    path = rng.choice(["", "/", "/", "/", "/x", "/x/", "/x/y/", "/a.b/c/", "/amp/client/", "/client", "/snowflake-broker.torproject.net/",
+                       # dot and empty segments, no trailing slash: what ResolveReference and path.Join do with them
+                       "/x/../y/", "/./x/", "/x//y/", "//", "/x/.", "/x/..", "/a/b/../../c/d", "/..", "/../../x/", "/x/y", "/x/./", "/...//", "/x/.../y/", "/%2e%2e/x/", "/x///"])
     return scheme + "://" + user + host + port + path
 
 
@@ -526,7 +543,8 @@ def rand_front(rng):
 
 def rand_cache_rdv(rng):
     return rng.choice([None, None, "https://cdn.ampproject.org/", "https://cdn.ampproject.org/", "https://cdn.ampproject.org", "https://amp.cache:8443/p/",
-                       "http://amp.cache/p/q", "https://u:p@amp.cache/", "https://cdn.ampproject.org/?q=1", "https://cdn.ampproject.org/#f"])
+                       "http://amp.cache/p/q", "https://u:p@amp.cache/", "https://cdn.ampproject.org/?q=1", "https://cdn.ampproject.org/#f",
+                       "https://amp.cache/p/../q/", "https://amp.cache/p//q", "https://amp.cache/./", "https://amp.cache/p/.", "https://amp.cache/..", "https://amp.cache//"])
 
 
 def rand_status(rng):
@@ -612,24 +630,31 @@ def prop_rdv(line, impl, model):
         return None if res == "res=err" else "no request but a result"
     method, scheme, urlhost, hosthdr, path, query, body = req
     enc = b"0" + b64u(unhex(a[17])) + b"/" + b64u(data) if op == "amp" else b""
+    bp = b[5]
+    plain = all(sg not in (b".", b"..") for sg in bp.split(b"/"))       # no dot segments in the broker path
+    if any(sg in (b".", b"..") for sg in path.split(b"/")):
+        return "request path %r still has a dot segment" % path
     if op == "amp" and cache is None and data != b"":
-        bp = b[5]
         want = (bp[: bp.rfind(b"/") + 1] or b"/") + b"amp/client/" + enc
-        if path != want:
+        if plain and path != want:
             return "AMP rendezvous path is %r, the broker URL's directory + amp/client/<encoded poll> is %r" % (path, want)
+        if not path.endswith(b"/amp/client/" + enc):
+            return "AMP rendezvous path %r does not end in /amp/client/<encoded poll>" % path
     if op == "http":
         if method != b"POST" or body != data:
             return "HTTP rendezvous did not POST the poll as the body"
-        bp = b[5]
         want = (bp[: bp.rfind(b"/") + 1] or b"/") + b"client"
-        if path != want:
+        if plain and path != want:
             return "HTTP rendezvous path is %r, the broker URL's directory + \"client\" is %r" % (path, want)
+        if not path.endswith(b"/client"):
+            return "HTTP rendezvous path %r does not end in /client" % path
     else:
         if method != b"GET" or body is not None:
             return "AMP rendezvous is not a body-less GET"
-        # (an empty poll ends in "/", which path.Join in CacheURL removes by design, see cache_test.go;
-        #  the client never sends an empty poll: left to the model comparison)
-        if not (data == b"" and cache is not None) and not path.endswith(b"amp/client/" + enc):
+        # an empty poll ends in "/", which path.Join in CacheURL removes (by design, see cache_test.go; theorem
+        # C11_amp_cache_empty_poll): exactly that, nothing more, may be missing
+        tail = b"amp/client/" + (enc[:-1] if (data == b"" and cache is not None) else enc)
+        if not path.endswith(tail):
             return "AMP rendezvous path does not end in amp/client/0<padding>/<base64url(poll)> for the padding crypto/rand produced"
     named = bhost if cache is None else None
     if front != b"":
